@@ -798,6 +798,27 @@ static int run_case(struct vf_rng *r, long idx)
 	vf_phase("vbi3_raw_decoder_add_services");
 	got3 = vbi3_raw_decoder_add_services(rd3, c.req, c.strict);
 	old_rd_setup(&rdo, &c);
+	/* 0.2 interface, documented way to change the sampling parameters of a decoder in use: vbi_raw_decoder_reset()
+	 * ("removes all services, does not touch the sampling parameters; you are free to change them"), edit the public
+	 * fields, add the services again.  In one case of four the old decoder has such a past: it was used with
+	 * parameters that differ in ONE field from those of the case, and must then behave like a fresh one. */
+	if (vf_chance(r, 1, 4)) {
+		int which = (int)vf_below(r, 3), n0;
+		if (which == 0 && c.sp.count[0] == c.sp.count[1]) rdo.interlaced = !c.sp.interlaced;
+		else if (which == 1) rdo.synchronous = !c.sp.synchronous;
+		else { rdo.start[0] = c.sp.start[0] + 1; if (c.sp.start[1] > 0) rdo.start[1] = c.sp.start[1] + 1; which = 2; }
+		vf_phase("vbi_raw_decoder_add_services");
+		vbi_raw_decoder_add_services(&rdo, c.req, 0);
+		memset(raw, 0x10, raw_size);
+		vf_phase("vbi_raw_decode");
+		n0 = vbi_raw_decode(&rdo, raw, out);
+		(void)n0;
+		vf_phase("vbi_raw_decoder_reset");
+		vbi_raw_decoder_reset(&rdo);
+		rdo.interlaced = c.sp.interlaced; rdo.synchronous = c.sp.synchronous;
+		rdo.start[0] = c.sp.start[0]; rdo.start[1] = c.sp.start[1];
+		vf_count(which == 0 ? "old_decoders_with_a_past_interlaced" : which == 1 ? "old_decoders_with_a_past_synchronous" : "old_decoders_with_a_past_start_lines", 1);
+	}
 	vf_phase("vbi_raw_decoder_add_services");
 	goto_ = vbi_raw_decoder_add_services(&rdo, c.req, c.strict);
 	if (c.judged) {
